@@ -51,6 +51,15 @@ fn main() {
         }
         return;
     }
+    if a.len() >= 3 && a[1] == "parse" {
+        // print the components after parsing + normalization (one per line)
+        let s = std::fs::read_to_string(&a[2]).expect("components file");
+        match s.parse::<Components>() {
+            Ok(c) => { for e in &c.data { println!("{}", e); } let cs = c.available_carriers(); let mut v: Vec<String> = cs.iter().map(|c| c.to_string()).collect(); v.sort(); println!("carriers: {}", v.join(",")); }
+            Err(e) => println!("error: {}", e),
+        }
+        return;
+    }
     if a.len() >= 3 && a[1] == "check" {
         let seed: u64 = a.get(3).and_then(|s| s.parse().ok()).unwrap_or(0);
         let rep = preds::check(&a[2], seed);
